@@ -54,3 +54,22 @@ Theorem C02_canonical_proof_root_indexes :
     exp_root_indexes HO (mk_ctx HO s) hs = Some idx.
 Proof. exact @verify_complete_indexes. Qed.
 Print Assumptions C02_canonical_proof_root_indexes.
+
+From Utreexo Require Import Model.MapRead Proofs.MapReadSpec Proofs.ProveVerifies.
+(** prover and verifier together: the proof the mirror of [MapPollard.Prove] returns, on any state
+    consistent with the reference forest ([consistent], the C09 invariant), for any distinct tracked
+    leaves, is the canonical proof and is accepted by the mirror of [Stump.Verify] *)
+Theorem C02_map_proof_is_canonical_and_verifies :
+  forall (H : Type) (HO : ops H) (s : slots H) (R : list H) (m : mstate H) (hs : list H),
+  ops_ok HO ->
+  (forall a b, NZ HO (op_hash2 HO a b)) ->
+  (forall h, In (Some h) s -> NZ HO h) ->
+  consistent HO s R m ->
+  (forall h, In h hs -> In h R) -> NoDup hs ->
+  exists ts pf idx,
+    Prove HO m hs = Some (ts, pf) /\
+    exp_prove HO (mk_ctx HO s) hs = Some (ts, pf) /\
+    Verify HO true (the_stump (mk_ctx HO s)) hs ts pf = Ok idx /\
+    exp_root_indexes HO (mk_ctx HO s) hs = Some idx.
+Proof. exact @map_prove_verifies. Qed.
+Print Assumptions C02_map_proof_is_canonical_and_verifies.
